@@ -137,12 +137,28 @@ macro_rules! set_impl {
                 set_untracked: Box::new(move |l| ctx.set_locale_untracked(l)),
                 string: Box::new(move || t_string!(ctx, hello).to_string()),
                 memo: Box::new(move |kind: &str| -> Box<dyn Fn() -> String> {
-                    if kind == "memo_locale" {
-                        let m = Memo::new(move |_| ctx.get_locale());
-                        Box::new(move || format!("hello@{}", m.get_untracked().as_str()))
-                    } else {
-                        let m = Memo::new(move |_| t_string!(ctx, hello).to_string());
-                        Box::new(move || m.get_untracked())
+                    // a subscriber over each tracked way of reading the context
+                    match kind {
+                        "memo_locale" => {
+                            let m = Memo::new(move |_| ctx.get_locale());
+                            Box::new(move || format!("hello@{}", m.get_untracked().as_str()))
+                        }
+                        "memo_t_display" => {
+                            let m = Memo::new(move |_| t_display!(ctx, hello).to_string());
+                            Box::new(move || m.get_untracked())
+                        }
+                        "memo_t_view" => {
+                            let m = Memo::new(move |_| html(t!(ctx, hello)));
+                            Box::new(move || m.get_untracked())
+                        }
+                        "memo_t_plural" => {
+                            let m = Memo::new(move |_| { let f = leptos_i18n::t_plural!(ctx, count = || 2, _ => t_string!(ctx, hello).to_string()); f() });
+                            Box::new(move || m.get_untracked())
+                        }
+                        _ => {
+                            let m = Memo::new(move |_| t_string!(ctx, hello).to_string());
+                            Box::new(move || m.get_untracked())
+                        }
                     }
                 }),
                 owner,
@@ -313,7 +329,7 @@ macro_rules! set_impl {
                         let flavour = op["flavour"].as_str().unwrap_or("t").to_string();
                         let hs = handles.borrow();
                         let f: Box<dyn Fn() -> String> = match (hs[i].base, flavour.as_str()) {
-                            (_, "memo_locale") | (_, "memo_t") => hs[i].owner.with(|| (hs[i].memo)(flavour.as_str())),
+                            (_, f) if f.starts_with("memo_") => hs[i].owner.with(|| (hs[i].memo)(flavour.as_str())),
                             (Some(ctx), "t") => {
                                 let v = t!(ctx, hello);
                                 Box::new(move || html(v.clone()))
